@@ -102,27 +102,27 @@ MC_CONFIGS = {
 # driver emphasis per property: (sub-command, extra args, runs quick, runs thorough)
 # "exhaust": every DAG on v vertices x every outcome assignment x edge declaration orders (n is ignored; the work is sharded)
 DRIVERS = {
-    "C13": [("rand", ["-maxv", "4", "-weird", "0.05"], 480, 12000), ("rand", ["-maxv", "6", "-weird", "0"], 160, 4000),
+    "C13": [("rand", ["-maxv", "4", "-weird", "0.05"], 1440, 12000), ("rand", ["-maxv", "6", "-weird", "0"], 480, 4000),
             ("exhaust", ["-v", "4", "-outs", "nil,skipparents", "-orders", "3"], 0, 0),
             ("exhaust", ["-v", "3", "-outs", "nil,err,skipparents", "-orders", "2", "-limit", "2"], 0, 0),
             ("exhaust", ["-v", "3", "-outs", "nil,err,skipparents", "-orders", "1", "-readd"], 0, 0),
-            ("rand", ["-maxv", "4", "-weird", "0.7"], 160, 4000),
+            ("rand", ["-maxv", "4", "-weird", "0.7"], 480, 4000),
             ("follow", [], 800, 16000)],
-    "C14": [("rand", ["-maxv", "4", "-weird", "0.05"], 480, 12000), ("rand", ["-maxv", "5", "-weird", "0"], 160, 4000),
+    "C14": [("rand", ["-maxv", "4", "-weird", "0.05"], 1440, 12000), ("rand", ["-maxv", "5", "-weird", "0"], 480, 4000),
             ("exhaust", ["-v", "4", "-outs", "nil,skipparents", "-orders", "3"], 0, 0),
             ("exhaust", ["-v", "4", "-outs", "nil,err", "-orders", "2", "-limit", "2"], 0, 0),
             ("exhaust", ["-v", "3", "-outs", "nil,err,skipparents", "-orders", "1", "-readd"], 0, 0),
-            ("rand", ["-maxv", "4", "-weird", "0.7"], 160, 4000),
+            ("rand", ["-maxv", "4", "-weird", "0.7"], 480, 4000),
             ("follow", [], 800, 16000)],
-    "C15": [("rand", ["-maxv", "4", "-weird", "0.05"], 320, 8000), ("two", ["-maxv", "3"], 160, 4000),
+    "C15": [("rand", ["-maxv", "4", "-weird", "0.05"], 960, 8000), ("two", ["-maxv", "3"], 480, 4000),
             ("exhaust", ["-v", "4", "-outs", "nil", "-orders", "1", "-limit", "1"], 0, 0),
             ("exhaust", ["-v", "4", "-outs", "nil", "-orders", "1", "-limit", "2"], 0, 0),
             ("exhaust", ["-v", "3", "-outs", "nil,err,skipparents", "-orders", "1", "-serial"], 0, 0),
             ("follow", [], 800, 16000)],
-    "C16": [("rand", ["-maxv", "4", "-weird", "0.6"], 480, 12000), ("rand", ["-maxv", "3", "-weird", "0.9"], 160, 4000),
-            ("rand", ["-maxv", "8", "-weird", "0.1", "-wide"], 160, 4000),  # wide graphs: vertices with five and more dependencies that others depend on
+    "C16": [("rand", ["-maxv", "4", "-weird", "0.6"], 1440, 12000), ("rand", ["-maxv", "3", "-weird", "0.9"], 480, 4000),
+            ("rand", ["-maxv", "8", "-weird", "0.1", "-wide"], 480, 4000),  # wide graphs: vertices with five and more dependencies that others depend on
             ("exhaust", ["-v", "3", "-outs", "nil,err", "-orders", "1", "-limit", "1"], 0, 0),
-            ("rand", ["-maxv", "5", "-weird", "0", "-fill"], 240, 6000),  # fill-the-semaphore schedules (incl. a second round with another limit)
+            ("rand", ["-maxv", "5", "-weird", "0", "-fill"], 720, 6000),  # fill-the-semaphore schedules (incl. a second round with another limit)
             ("exhaust", ["-v", "0", "-outs", "nil", "-orders", "3"], 0, 0),  # the empty graph (plain, reversed, shuffled: the same)
             ("exhaust", ["-v", "1", "-outs", "nil,err,skipparents", "-orders", "1", "-serial"], 0, 0),
             ("exhaust", ["-v", "4", "-outs", "nil,skipparents", "-orders", "1"], 0, 0),  # several ErrorSkipParents in one run: vertices re-marked after they were done
